@@ -3,6 +3,8 @@
 cd /verif && python3 -c "
 import sys; sys.path.insert(0,'/verif')
 from vlib import common as c
+import os
+c.regen([f[4:-3] for f in sorted(os.listdir('/verif/tools')) if f.startswith('gen_') and f.endswith('.py')])
 ok,log=c.coq_make(sys.argv[1:] or None)
 import re
 print('OK' if ok else 'FAIL')
